@@ -2,6 +2,7 @@
 #include "diagnostics/stacktrace.h"
 #include "d_array.h"
 #include "d_string.h"
+#include "d_scalar.h"
 #include "diagnostics/d_stacktrace.h"
 #include "verif_hooks.h"
 #ifdef SQFVM_RUNTIME_VERIF
@@ -68,6 +69,7 @@ static sqf::runtime::runtime::result execute_do(sqf::runtime::runtime& runtime, 
 {
     auto& context_active = runtime.context_active();
     auto& runtime_error = runtime.__runtime_error();
+    sqf::types::d_scalar::set_decimals(runtime.number_decimals()); // numbers print in the mode of the runtime that executes
     SQFVM_VERIF_SLICE(exit_after);
     while (true)
     {
